@@ -86,7 +86,7 @@ def _contains_yield(func_node):
 
 def _walk_own(func_node):
     """Walk the body of a function without descending into nested defs / lambdas / classes."""
-    stack = list(func_node.body)
+    stack = [node for node in func_node.body if not isinstance(node, (ast.FunctionDef, ast.AsyncFunctionDef, ast.ClassDef))]
     while stack:
         node = stack.pop()
         yield node
